@@ -16,7 +16,7 @@ def run_check(prop, tier):
         sd = vlib.spec_dir(sc)
         binp = vlib.build_harness(sc, "certgate")
         with open(os.path.join(sd, "CertGateGen.cfg"), "w") as f:
-            f.write("SPECIFICATION Spec\nCHECK_DEADLOCK FALSE\n")
+            f.write("SPECIFICATION Spec\nCONSTANT FullLens = %s\nCHECK_DEADLOCK FALSE\n" % ("FALSE" if tier == "quick" else "TRUE"))
         g = vlib.tlc(sd, "CertGateGen", workers=1, timeout=600)
         if g["error"]:
             raise vlib.Infra("TLC error in CertGateGen: %s\n%s" % (g["error"], g["tail"]))
@@ -43,7 +43,7 @@ def run_check(prop, tier):
         with open(os.path.join(sd, "MonCertRun.tla"), "w") as f:
             f.write("---- MODULE MonCertRun ----\nEXTENDS MonCert\n====\n")
         with open(os.path.join(sd, "MonCertRun.cfg"), "w") as f:
-            f.write('INIT MInit\nNEXT MNext\nCONSTANT ObsFile = "%s"\nPOSTCONDITION Done\nCHECK_DEADLOCK FALSE\n' % obs)
+            f.write('INIT MInit\nNEXT MNext\nCONSTANT FullLens = FALSE\nCONSTANT ObsFile = "%s"\nPOSTCONDITION Done\nCHECK_DEADLOCK FALSE\n' % obs)
         r = vlib.tlc(sd, "MonCertRun", workers=1, timeout=900)
         if r["error"]:
             raise vlib.Infra("monitor pass failed: %s\n%s" % (r["error"], r["tail"]))
